@@ -201,6 +201,14 @@ func run(c vrt.Case) vrt.Obs {
 			genProblem(&o, i, err)
 			continue
 		}
+		if i%8 == 5 && len(sc.MsgsA) > 0 && len(sc.MsgsB) > 0 {
+			// one message is queued at BOTH stations for the other one (a message to both operators that reached both
+			// mailboxes by another route; a relay handing a message back): the same MID, the same bytes, travelling in
+			// both directions in one session. Each direction is judged on its own.
+			m := sc.MsgsA[i/8%len(sc.MsgsA)]
+			sc.MsgsB = append(sc.MsgsB[:len(sc.MsgsB):len(sc.MsgsB)], m)
+			o.Count("sessions_with_the_same_message_queued_in_both_directions", 1)
+		}
 		runScenario(&o, sc, fmt.Sprintf("s%d", i))
 	}
 	return o
